@@ -127,7 +127,7 @@ namespace plan
       auto kit = children.find(&a);
       std::vector<ratio::atom *> kids = kit == children.end() ? std::vector<ratio::atom *>() : kit->second;
       size_t ki = 0;
-      for (auto &bi : pd->body)
+      for (auto &bi : m.eff_body(*pd))
       {
         if (bi->k == BodyItem::SUBGOAL)
         {
